@@ -178,6 +178,9 @@ def load_all_ways(text, fail):
             "Atoms.load(pathlib)": lambda: Atoms.load(pathlib.Path(p)),
             "Atoms.load(file,'cml')": lambda: _with_open(p, lambda fh: Atoms.load(fh, filetype="cml")),
             "Atoms.load(StringIO,'cml')": lambda: Atoms.load(io.StringIO(text), filetype="cml"),
+            "load_cml(stream that cannot seek)": lambda: Atoms.load_cml(_Pipe(text)),
+            "Atoms.load(stream that cannot seek,'cml')": lambda: Atoms.load(_Pipe(text), filetype="cml"),
+            "load_cml(open file positioned behind a title line)": lambda: _positioned(p, text, Atoms.load_cml),
             "Atoms.load(path named .xml,'cml')": lambda: Atoms.load(_copy_as(p, "m.xml"), filetype="cml"),
             "Atoms.load(path named .cif,'cml')": lambda: Atoms.load(_copy_as(p, "m.cif"), filetype="cml"),
         }
@@ -191,6 +194,43 @@ def load_all_ways(text, fail):
     finally:
         pass
     return res
+
+
+class _Pipe(io.TextIOBase):
+    """a text stream as sys.stdin or the read end of a pipe is: it can be read once, front to back, and cannot seek or tell"""
+    def __init__(self, text):
+        self._s = io.StringIO(text)
+
+    def readable(self):
+        return True
+
+    def seekable(self):
+        return False
+
+    def read(self, n=-1):
+        return self._s.read(n)
+
+    def readline(self, n=-1):
+        return self._s.readline(n)
+
+    def seek(self, *a):
+        raise io.UnsupportedOperation("underlying stream is not seekable")
+
+    def tell(self):
+        raise io.UnsupportedOperation("underlying stream is not seekable")
+
+
+def _positioned(p, text, fn):
+    """the molecule preceded by a title line in the file; the caller has read that line and hands over the open file"""
+    q = p + ".titled"
+    body = text
+    if body.startswith("<?xml"):
+        body = body.split("\n", 1)[1]
+    with open(q, "w") as f:
+        f.write("linker 17, exported by the harness\n" + body)
+    with open(q) as f:
+        f.readline()
+        return fn(f)
 
 
 def _quiet(fn):
